@@ -188,7 +188,12 @@ impl<'a> SszDecoderBuilder<'a> {
     ) -> Result<(), DecodeError> {
         if is_ssz_fixed_len {
             let start = self.items_index;
-            self.items_index += ssz_fixed_len;
+            self.items_index = self.items_index.checked_add(ssz_fixed_len).ok_or(
+                DecodeError::InvalidByteLength {
+                    len: self.bytes.len(),
+                    expected: usize::MAX,
+                },
+            )?;
 
             let slice =
                 self.bytes
